@@ -86,7 +86,7 @@ def rust_frame(prog, fs, nm):
     return None
 
 
-PRELUDE = r'''
+PRELUDE_TEMPLATE = r'''
 use super::*;
 use super::connection_state::ConnectionState;
 use amq_protocol::frame::{AMQPFrame, AMQPContentHeader};
@@ -100,8 +100,13 @@ struct VWorld { inner: Inner, state: ConnectionState, slots: Vec<VSlot>, ch0_rep
 
 fn mk_slot(id: u16) -> (ChannelSlot, cb::Receiver<Result<ChannelMessage>>, mio_extras::channel::SyncSender<IoLoopMessage>) {
     let (mio_tx, mio_rx) = mio_sync_channel(16);
-    let (tx, rx) = cb::bounded(2);
-    (ChannelSlot { rx: mio_rx, tx, collector: ContentCollector::new(id), consumers: HashMap::new(), return_handler: None, pub_confirm_handler: None }, rx, mio_tx)
+    let (tx, rx) = cb::bounded(REPLY_CAP);   // the capacity ChannelSlot::new of the tree under test gives the reply queue
+    // the real constructor (so that fields this harness does not know get their real initial values), with the two queue ends replaced by ours
+    let (mut slot, _handle) = ChannelSlot::new(16, id);
+    slot.rx = mio_rx;
+    slot.tx = tx;
+    std::mem::forget(_handle);
+    (slot, rx, mio_tx)
 }
 
 fn mk_world(blocked: bool) -> VWorld {
@@ -352,6 +357,16 @@ def engine_cm_str(prog, msg, nm):
     return vn
 
 
+class _Prelude(str):
+    pass
+
+
+def prelude():
+    """the native harness with the reply-queue capacity the tree under test really uses (discovered from ChannelSlot::new's MIR)"""
+    import mirsym.world as _w
+    return PRELUDE_TEMPLATE.replace('REPLY_CAP', str(_w.REPLY_CAP['cap']))
+
+
 def slot_field_index(prog, name):
     return prog.types.fields('ChannelSlot').index(name)
 
@@ -445,7 +460,7 @@ def collector_prep(prog, shape, infoA, a_val, nm):
 
 def build_test(prog, w, nm, shape, infoA, events, blocked=True):
     """events: list of ('frame', FrameSym) | ('drop', slot, 'ret'|'conf'|'blocked'|'c<i>')"""
-    lines = [PRELUDE, "#[test]", "fn verif_replay_io() {", f"    let mut w = mk_world({'true' if blocked else 'false'});"]
+    lines = [prelude(), "#[test]", "fn verif_replay_io() {", f"    let mut w = mk_world({'true' if blocked else 'false'});"]
     for name, info in w.slots.items():
         if name == 'ch0':
             continue
@@ -589,13 +604,13 @@ class Validator:
         if test is None:
             return
         k = len(self.cases)
-        body = test[len(PRELUDE):].replace('fn verif_replay_io()', f'fn verif_replay_io_{k}()').replace('VERIF-OBS {}', f'VERIF-OBS#{k}# {{}}')
+        body = test[len(prelude()):].replace('fn verif_replay_io()', f'fn verif_replay_io_{k}()').replace('VERIF-OBS {}', f'VERIF-OBS#{k}# {{}}')
         self.cases.append((k, body, engine_obs(self.prog, s, w, results, nm, base_items=base_items), label))
 
     def run(self):
         if not self.cases:
             return
-        src = PRELUDE + '\n'.join(b for (_, b, _, _) in self.cases)
+        src = prelude() + '\n'.join(b for (_, b, _, _) in self.cases)
         rp = self.ctx.replay_native('translator-validation', src, expect_marker='VERIF-OBS', profiles=('dev',), inject_into='src/io_loop/mod.rs')
         tail = rp['profiles']['dev'].get('tail', '')
         ok = 0
